@@ -143,8 +143,11 @@ def run_instance(inst):
     net = build_net(edges)
     sm = simenc.SymModule(net)
     t0 = time.time()
-    out, it, _ = _enc(one_step(net, sm, solver, vs), (sm.arrays(),), vs, stub, [net]); its.append(it)
-    out = sym.to_obj(out)
+    LIVE = [net]
+    def ENC(fn, *a):
+        r_, it_, _ = _enc(fn, a, vs, stub, LIVE); its.append(it_); return sym.to_obj(r_)
+    ROUT = simenc.Run(one_step(net, sm, solver, vs), (sm.arrays(),), ENC)
+    out = ROUT.sym
     n = len(net.nodes)
     x = [out[i, 1] for i in range(n)]
     # ------------------------------------------------------------- ROWS
@@ -252,11 +255,11 @@ def run_instance(inst):
                 else:
                     # edge row j of net2 is edge pm[j] of net
                     arrs.append(np.asarray([sm.symbol(k, int(pm[int(r_)])) for r_ in sm2.ecols[k]], dtype=object))
-            out2, it3, _ = _enc(one_step(net2, sm2, solver, vs), (arrs,), vs, stub, [net, net2]); its.append(it3)
-            out2 = sym.to_obj(out2)
-            verdict, _ = equiv.decide_equal(list(zip(out2.reshape(-1), out.reshape(-1))), f"C09/ORDER/{name}", timeout=timeout, rng=rng, counters=res["counters"])
+            LIVE.append(net2)
+            R2 = simenc.Run(one_step(net2, sm2, solver, vs), (arrs,), ENC)
+            verdict, _ = equiv.decide_runs(R2, ROUT, lambda x_, y_: (equiv.flat(x_), equiv.flat(y_)), f"C09/ORDER/{name}", timeout=timeout, rng=rng, counters=res["counters"])
             res["counters"][f"ORDER_{verdict}"] = res["counters"].get(f"ORDER_{verdict}", 0) + 1
-            if verdict == "differs":
+            if verdict in ("differs", "shape"):
                 viol("ORDER", f"creation order {e2} gives different voltages than {edges}")
             elif verdict not in ("structural", "unsat"):
                 res["inconclusive"].append({"instance": inst, "query": "ORDER", "reason": verdict})
@@ -266,15 +269,15 @@ def run_instance(inst):
         gkeys = [k for syn in netz.synapses for k in syn.synapse_params if k.split("_")[-1].startswith("g")]
         smz = simenc.SymModule(netz, only=[k for k in simenc.SymModule(netz).keys() if k not in gkeys])
         arrs = [sm.syms[k] for k in smz.keys()]
-        outz, it4, _ = _enc(one_step(netz, smz, solver, vs), (arrs,), vs, stub, [net, netz]); its.append(it4)
-        outz = sym.to_obj(outz)
+        LIVE.append(netz)
+        RZ = simenc.Run(one_step(netz, smz, solver, vs), (arrs,), ENC)
         net0 = build_net([])
         sm0 = simenc.SymModule(net0)
-        out0, it5, _ = _enc(one_step(net0, sm0, solver, vs), ([sm.syms[k] for k in sm0.keys()],), vs, stub, [net, net0]); its.append(it5)
-        out0 = sym.to_obj(out0)
-        verdict, _ = equiv.decide_equal(list(zip(outz.reshape(-1), out0.reshape(-1))), f"C09/ZERO/{name}", timeout=timeout, rng=rng, counters=res["counters"])
+        LIVE.append(net0)
+        R0 = simenc.Run(one_step(net0, sm0, solver, vs), ([sm.syms[k] for k in sm0.keys()],), ENC)
+        verdict, _ = equiv.decide_runs(RZ, R0, lambda x_, y_: (equiv.flat(x_), equiv.flat(y_)), f"C09/ZERO/{name}", timeout=timeout, rng=rng, counters=res["counters"])
         res["counters"][f"ZERO_{verdict}"] = 1
-        if verdict == "differs":
+        if verdict in ("differs", "shape"):
             viol("ZERO", "with all synaptic conductances zero the cells do not simulate as in a network without synapses")
         elif verdict not in ("structural", "unsat"):
             res["inconclusive"].append({"instance": inst, "query": "ZERO", "reason": verdict})
